@@ -59,3 +59,46 @@ func sceneDeterminism(o ReqOpts, expiry bool) {
 	}
 	chk("C20", sameBal, "balances-identical")
 }
+
+// sceneDeterminismTwo: two contexts of one consumer are due for a batch in the same block and the
+// consumer can pay only some of them, so the outcome depends on the order in which they are processed;
+// that order must be the store's key order in both runs.
+func sceneDeterminismTwo() {
+	build := func() dump {
+		k, ctx := vf.Env()
+		ctx, H, _ := Block(ctx)
+		Define(k, ctx, Svc)
+		owner, prov, consumer := vf.Addr("owner", 20), vf.Addr("prov", 20), vf.Addr("consumer", 20)
+		Binding(k, ctx, "b", Svc, prov, owner, 0, 0, false)
+		id1, id2 := vf.Bytes("ctx1", 40), vf.Bytes("ctx2", 40)
+		vf.Assume(string(id1) != string(id2))
+		capAmt := vf.Amount("cap")
+		vf.Assume(capAmt.IsPositive())
+		for _, id := range [][]byte{id1, id2} {
+			rc := types.NewRequestContext(Svc, []sdk.AccAddress{prov}, consumer, InputOK, coins(capAmt), 1, false, true, 5, -1,
+				0, 0, 0, 1, types.BATCHCOMPLETED, types.RUNNING, 1, "")
+			k.SetRequestContext(ctx, id, rc)
+			k.AddNewRequestBatch(ctx, id, H)
+		}
+		vf.SetBalance(consumer, vf.Amount("balConsumer"))
+		vf.SetModuleBalance(types.RequestAccName, vf.Amount("escrowRest"))
+		service.EndBlocker(ctx, k)
+		s := &ReqScene{K: k, Ctx: ctx, Consumer: consumer}
+		return dumpState(s)
+	}
+	d1 := build()
+	d2 := build()
+	chk("C20", len(d1.keys) == len(d2.keys), "same-number-of-records")
+	if len(d1.keys) == len(d2.keys) {
+		same := true
+		for i := range d1.keys {
+			same = vf.All(same, string(d1.keys[i]) == string(d2.keys[i]), vf.SameBytes(d1.vals[i], d2.vals[i]))
+		}
+		chk("C20", same, "module-store-identical")
+	}
+	sameBal := true
+	for i := range d1.bal {
+		sameBal = vf.And(sameBal, d1.bal[i].Equal(d2.bal[i]))
+	}
+	chk("C20", sameBal, "balances-identical")
+}
